@@ -39,9 +39,10 @@ def S(t):
 class Engine:
     cur = None
 
-    def __init__(self, timeout_ms=20000, max_decisions=4000):
+    def __init__(self, timeout_ms=20000, max_decisions=600, path_wall_s=120):
         self.timeout_ms = timeout_ms
         self.max_decisions = max_decisions
+        self.path_wall_s = path_wall_s
         self.stats = Counter()
         self.solver_s = 0.0
         self.entered = set()
@@ -62,6 +63,8 @@ class Engine:
         self.decided = {}
         self._keep = []
         self._divcache = {}
+        self.on_budget = None
+        self.path_t0 = time.time()
 
     def fresh(self, name, sort="int"):
         self.fresh_n += 1
@@ -118,6 +121,8 @@ class Engine:
         else:
             if len(self.trace) >= self.max_decisions:
                 raise PathBudget("more than %d decisions on one path" % self.max_decisions)
+            if time.time() - self.path_t0 > self.path_wall_s:
+                raise PathBudget("path ran for more than %d s" % self.path_wall_s)
             rt = self.check(c)
             rf = self.check(z3.Not(c))
             if rt == z3.unknown or rf == z3.unknown:
@@ -199,6 +204,20 @@ class _Tracer:
                 self.sink.add("%s:%s" % (os.path.basename(co.co_filename), co.co_qualname))
 
 
+def _on_alarm(signum, frame):
+    raise PathBudget("path ran for more than its wall-clock budget (watchdog)")
+
+
+def _arm(seconds):
+    import signal
+    import threading
+    if threading.current_thread() is not threading.main_thread():
+        return
+    if seconds:
+        signal.signal(signal.SIGALRM, _on_alarm)
+    signal.setitimer(signal.ITIMER_REAL, seconds)
+
+
 def _run_subtree(args):
     prefix, chunk = args
     fn = _FN
@@ -215,8 +234,10 @@ def _run_subtree(args):
             sys.setprofile(tracer)
         try:
             try:
+                _arm(e.path_wall_s)
                 r = fn(e)
             finally:
+                _arm(0)
                 if tracer is not None:
                     sys.setprofile(None)
             if r is None:
@@ -224,7 +245,17 @@ def _run_subtree(args):
         except Infeasible:
             r = None
         except PathBudget as ex:
-            r = {"status": "harness_error", "why": "path budget: %s" % ex}
+            # a path that does not end within the budget: possible non-termination of the code under test.
+            # If the harness registered a counterexample builder the model is handed to the replay.
+            r = {"status": "budget", "why": "path budget: %s" % ex}
+            if e.on_budget is not None:
+                try:
+                    m = e.model()
+                    if m is not None:
+                        r = {"status": "cex", "failing": ["path budget exceeded (possible non-termination): %s" % ex],
+                             "cex": e.on_budget(m)}
+                except Exception:
+                    pass
         except Unsupported as ex:
             r = {"status": "unsupported", "why": str(ex)[:300]}
         except SxControl as ex:
@@ -254,6 +285,7 @@ class Exploration:
         self.solver_s = 0.0
         self.paths = 0
         self.exhausted = True
+        self.stopped_on_cex = False
         self.wall_s = 0.0
         self.entered = set()
 
@@ -261,21 +293,26 @@ class Exploration:
         return Counter(r["status"] for r in self.results)
 
 
-def explore(fn, workers=None, timeout_ms=20000, chunk=40, max_paths=None, deadline_s=None, keep=None):
+def explore(fn, workers=None, timeout_ms=20000, chunk=40, max_paths=None, deadline_s=None, keep=None, max_decisions=600, path_wall_s=60, stop_after_cex=30):
     """explore all paths of fn.  keep(result)->bool selects which result dicts are retained in full
     (default all)."""
     global _FN, _ENGINE_KW
     _FN = fn
-    _ENGINE_KW = dict(timeout_ms=timeout_ms)
+    _ENGINE_KW = dict(timeout_ms=timeout_ms, max_decisions=max_decisions, path_wall_s=path_wall_s)
     if workers is None:
         workers = int(os.environ.get("SXV_WORKERS", "0")) or min(16, os.cpu_count() or 1)
     ex = Exploration()
     t0 = time.time()
     queue = deque([[]])
+    if deadline_s is None:
+        deadline_s = float(os.environ.get("SXV_DEADLINE", "0")) or (150 if os.environ.get("SXV_TIER", "quick") == "quick" else 2400)
+    ncex = [0]
 
     def absorb(out):
         results, left, stats, ss, np_, entered = out
         for r in results:
+            if r["status"] == "cex":
+                ncex[0] += 1
             if keep is None or keep(r):
                 ex.results.append(r)
             else:
@@ -284,10 +321,14 @@ def explore(fn, workers=None, timeout_ms=20000, chunk=40, max_paths=None, deadli
         ex.solver_s += ss
         ex.paths += np_
         ex.entered.update(entered)
-        queue.extend(left)
+        if not ex.stopped_on_cex:
+            queue.extend(left)
 
     if workers <= 1:
         while queue:
+            if ncex[0] >= stop_after_cex:
+                ex.stopped_on_cex = True
+                break
             if (max_paths and ex.paths >= max_paths) or (deadline_s and time.time() - t0 > deadline_s):
                 ex.exhausted = False
                 break
@@ -301,9 +342,13 @@ def explore(fn, workers=None, timeout_ms=20000, chunk=40, max_paths=None, deadli
                 inflight = []
                 while queue or inflight:
                     over = (max_paths and ex.paths >= max_paths) or (deadline_s and time.time() - t0 > deadline_s)
-                    if over:
+                    if ncex[0] >= stop_after_cex and queue:
+                        ex.stopped_on_cex = True
+                        queue.clear()
+                    elif over and (queue or inflight):
                         ex.exhausted = False
                         queue.clear()
+                        break
                     while queue and len(inflight) < workers * 2:
                         inflight.append(pool.apply_async(_run_subtree, ((queue.pop(), chunk),)))
                     if not inflight:
